@@ -19,8 +19,9 @@ if cmake --build $BD -j12 >/dev/null 2>&1; then echo "COMPILES: yes"; else echo 
 ctest --test-dir $BD -j8 --timeout 900 2>&1 | grep "tests passed\|tests failed" > /tmp/sv_${NAME}_ctest.txt; cat /tmp/sv_${NAME}_ctest.txt
 rm -rf $DST; mkdir -p $DST; cp $SRC/patch.diff $DST/; cp -r $SRC/demo $DST/demo; cp $SRC/README.md $DST/README.md
 chmod +x $DST/demo/run.sh 2>/dev/null || true
-(cd $DST/demo && sh ./run.sh $BASE > ../demo_unchanged.txt 2>&1; echo "exit=$?" >> ../demo_unchanged.txt) || true
-(cd $DST/demo && sh ./run.sh $BD > ../demo_changed.txt 2>&1; echo "exit=$?" >> ../demo_changed.txt) || true
+SH=sh; head -1 $DST/demo/run.sh | grep -q bash && SH=bash      # (ulimit and arrays differ between dash and bash)
+(cd $DST/demo && $SH ./run.sh $BASE > ../demo_unchanged.txt 2>&1; echo "exit=$?" >> ../demo_unchanged.txt) || true
+(cd $DST/demo && $SH ./run.sh $BD > ../demo_changed.txt 2>&1; echo "exit=$?" >> ../demo_changed.txt) || true
 if cmp -s $DST/demo_unchanged.txt $DST/demo_changed.txt; then echo "DEMO: outputs identical (NOT demonstrated)"; else echo "DEMO: outputs differ"; fi
 cp /tmp/sv_${NAME}_ctest.txt $DST/ctest_summary.txt
 git -C /repo worktree remove --force $WT; rm -rf $BD
